@@ -79,8 +79,8 @@ class LockStep:
         """send `end …`; returns dict(sync=…, model=…, post=…)"""
         a = self.m.ask("end " + end_token)
         if not a.startswith("ok "):
-            return {"sync": "driver:" + a, "model": "-", "post": "ok", "raw": a}
-        d = {"raw": a}
+            return {"sync": "driver:" + a, "model": "-", "post": "ok", "answer": a}
+        d = {"answer": a}
         for part in a.split()[1:]:
             k, _, v = part.partition("=")
             d[k] = v
